@@ -75,7 +75,104 @@ def s_setup_teardown(sim):
     sim.run(until=sim.elapsed() + 50, quiesce=False)
 
 
-SCENARIOS = {"exchange": s_exchange, "block1": s_block1, "block2": s_block2,
+def s_tcp(sim):
+    sim.enable_stream_relay()
+    sim.add_node(0)
+    sim.add_node(1)
+    sim.cmd("ep 1 tcp %s" % SERVER)
+    sim.cmd("ep 1 udp %s" % SERVER)
+    sim.cmd("res 1 %s body=fixed:%s" % (b"r".hex(), b"hello".hex()))
+    sim.cmd("sess 0 0 tcp %s" % SERVER)
+    sim.cmd("send 0 0 type=0 code=1 token=a1 opts=11=72")
+    sim.run(horizon=200000)
+    sim.cmd("send 0 0 type=0 code=2 token=a2 opts=11=72,12= payload=7878")
+    sim.run(horizon=200000)
+    sim.cmd("release 0 0")
+    sim.run(horizon=200000)
+
+
+def s_ws(sim):
+    sim.enable_stream_relay()
+    sim.add_node(0)
+    sim.add_node(1)
+    sim.cmd("ep 1 ws 10.0.0.2:80")
+    sim.cmd("ep 1 udp %s" % SERVER)
+    sim.cmd("res 1 %s body=fixed:%s" % (b"r".hex(), b"hello".hex()))
+    sim.cmd("sess 0 0 ws 10.0.0.2:80")
+    sim.cmd("send 0 0 type=0 code=1 token=a1 opts=11=72")
+    sim.run(horizon=200000)
+    sim.cmd("release 0 0")
+    sim.run(horizon=200000)
+
+
+def s_dtls(sim):
+    sim.add_node(0)
+    sim.add_node(1)
+    sim.cmd("psk 1 hint=%s key=%s" % (b"h".hex(), b"secretkey".hex()))
+    sim.cmd("ep 1 dtls 10.0.0.2:5684")
+    sim.cmd("ep 1 udp %s" % SERVER)
+    sim.cmd("res 1 %s body=fixed:%s" % (b"r".hex(), b"hello".hex()))
+    sim.cmd("sess 0 0 dtls 10.0.0.2:5684 psk_id=%s psk_key=%s" % (b"me".hex(), b"secretkey".hex()))
+    sim.cmd("send 0 0 type=0 code=1 token=a1 opts=11=72")
+    sim.run(horizon=30000)
+    sim.cmd("release 0 0")
+    sim.run(horizon=30000)
+
+
+OSC_CONF = ('master_secret,hex,"0102030405060708090a0b0c0d0e0f10"\nmaster_salt,hex,"9e7ca92223786340"\n'
+            'sender_id,hex,"%s"\nrecipient_id,hex,"%s"\nreplay_window,integer,32\n'
+            'ssn_freq,integer,1\nrfc8613_b_1_2,bool,false\n')
+
+
+def s_oscore(sim):
+    sim.add_node(0, block_mode=1)
+    sim.add_node(1, block_mode=1)
+    sim.cmd("oscore_server 1 %s" % (OSC_CONF % ("01", "")).encode().hex())
+    sim.cmd("ep 1 udp %s" % SERVER)
+    sim.cmd("res 1 %s body=fixed:%s" % (b"r".hex(), b"hello".hex()))
+    sim.cmd("res 1 %s body=counter obs=1" % b"o".hex())
+    sim.cmd("sess 0 0 udp %s oscore=%s" % (SERVER, (OSC_CONF % ("", "01")).encode().hex()))
+    sim.cmd("send 0 0 type=0 code=1 token=a1 opts=11=72")
+    sim.run(horizon=100000)
+    sim.cmd("send 0 0 type=0 code=1 token=a2 opts=6=,11=6f")
+    sim.run(horizon=100000)
+    sim.cmd("notify 1 o")
+    sim.run(until=sim.elapsed() + 3000, quiesce=False)
+    sim.cmd("cancelobs 0 0 a2 0")
+    sim.run(horizon=100000)
+
+
+def s_async(sim):
+    base(sim)
+    sim.cmd("res 1 %s body=fixed:%s sep=300" % (b"s".hex(), b"later".hex()))
+    sim.cmd("send 0 0 type=0 code=1 token=a1 opts=11=73")
+    sim.run(horizon=200000)
+
+
+def s_persist(sim):
+    import tempfile
+    d = tempfile.mkdtemp(prefix="vf-c18-")
+    sim.persist_dir = d
+    sim.add_node(0)
+    sim.add_node(1)
+    sim.cmd("ep 1 udp %s" % SERVER)
+    sim.cmd("res 1 %s body=fixed:%s" % (b"r".hex(), b"hello".hex()))
+    sim.cmd("res 1 - kind=unknown dyn=1")
+    sim.cmd("persist 1 %s freq=2" % d)
+    sim.cmd("sess 0 0 udp %s" % SERVER)
+    sim.cmd("send 0 0 type=0 code=3 token=a1 opts=11=%s" % b"dyn".hex())
+    sim.run(horizon=100000)
+    sim.cmd("send 0 0 type=0 code=1 token=a2 opts=6=,11=%s" % b"dyn".hex())
+    sim.run(horizon=100000)
+    for _ in range(3):
+        sim.cmd("notify 1 dyn")
+        sim.run(until=sim.elapsed() + 3000, quiesce=False)
+    sim.cmd("send 0 0 type=0 code=4 token=a3 opts=11=%s" % b"dyn".hex())
+    sim.run(horizon=100000)
+
+
+SCENARIOS = {"exchange": s_exchange, "tcp": s_tcp, "ws": s_ws, "dtls": s_dtls, "oscore": s_oscore,
+             "async": s_async, "persist": s_persist, "block1": s_block1, "block2": s_block2,
              "observe": s_observe, "uri-helpers": s_uri, "setup-teardown": s_setup_teardown}
 
 
@@ -94,7 +191,7 @@ def canary(sim):
                 e.get("phex") == b"canary".hex() for e in sim.log[mark:])
     # and the endpoint that suffered the failure still answers (when it exists)
     old = None
-    if any(e["e"] == "bound" and e.get("addr") == SERVER for e in sim.log):
+    if any(e["e"] == "bound" and e.get("addr") == SERVER and not e.get("tcp") for e in sim.log):
         mark = len(sim.log)
         sim.cmd("sess 2 1 udp %s" % SERVER)
         sim.cmd("send 2 1 type=0 code=1 token=cb opts=11=72")
@@ -129,6 +226,9 @@ def run_one(exe, name, k, k2=0):
     finally:
         if not w.closed:
             w.close(kill=True)
+        if getattr(sim, "persist_dir", None):
+            import shutil
+            shutil.rmtree(sim.persist_dir, ignore_errors=True)
 
 
 def site_key(site):
@@ -195,7 +295,10 @@ def main(tier):
                 "CON and NON exchange; Block1 PUT (3 blocks); Block2 GET (3 blocks); observe "
                 "register + 3 notifies + cancel; URI/optlist helpers (coap_new_uri, "
                 "coap_clone_uri, coap_uri_into_optlist, coap_path_into_optlist, "
-                "coap_query_into_optlist, coap_add_optlist_pdu, coap_send). A counting run gives N "
+                "coap_query_into_optlist, coap_add_optlist_pdu, coap_send); TCP and WebSocket "
+                "exchange between two nodes; DTLS-PSK exchange; OSCORE exchange + observe + "
+                "cancel; separate (async) response; persistence with a dynamic resource, an "
+                "observer and a DELETE. A counting run gives N "
                 "funnel allocations per scenario; then one fresh process per k in 1..N with the "
                 "k-th allocation failing (thorough: also pairs for the small scenarios); "
                 "distinct_nontrivial = distinct (scenario, failing call site) pairs")
